@@ -511,7 +511,8 @@ type inlineHandler struct {
 	host    *ssa.Function
 	site    *batchSite
 	errV    ssa.Value
-	records []*ssa.MapUpdate
+	records []ssa.Instruction // the recording of a failed request: the map update, or the append to the table's pending list
+	sink    *ssa.MapUpdate    // where the recorded requests are stored under the table's name
 }
 
 func isWriteRequestMap(t types.Type) bool {
@@ -547,22 +548,16 @@ func (e *Engine) inlineBatchHandler(role string) *inlineHandler {
 	if ih.errV == nil {
 		return nil
 	}
-	instrs(ih.host, func(in ssa.Instruction) {
-		mu, ok := in.(*ssa.MapUpdate)
-		if !ok || !isWriteRequestMap(mu.Map.Type()) {
-			return
-		}
-		c, ok := mu.Value.(*ssa.Call)
-		if !ok || staticCalleeName(c) != "builtin.append" {
-			return
-		}
+	for _, rec := range writeRequestRecordings(ih.host) {
 		// what is appended is the request that was dispatched
+		c := rec.app
 		for _, a := range dsite.call.Common().Args {
 			if containsElem(c.Call.Args[1], a) {
-				ih.records = append(ih.records, mu)
+				ih.records = append(ih.records, rec.at)
+				ih.sink = rec.sink
 			}
 		}
-	})
+	}
 	if len(ih.records) == 0 {
 		return nil
 	}
@@ -611,7 +606,7 @@ func (e *Engine) c15Inline(role string, ih *inlineHandler, bw *ssa.Function) {
 	}
 	e.pass("R3", role+".Client.BatchWriteItem:handler-error-propagated", e.ipos(di), "inline form: covered by never-drops (the only returns reachable under a non-nil error return that error)")
 	var mapArg ssa.Value
-	mapArg, _ = resolveParam(ih.records[0].Map, ih.site.ctx)
+	mapArg, _ = resolveParam(ih.sink.Map, ih.site.ctx)
 	outOK := false
 	instrs(bw, func(in ssa.Instruction) {
 		if st, ok := in.(*ssa.Store); ok {
@@ -1007,17 +1002,15 @@ func c15R8(e *Engine) {
 				}
 				switch x := in.(type) {
 				case *ssa.MapUpdate:
-					if isWriteRequestMap(x.Map.Type()) {
-						if c, ok := x.Value.(*ssa.Call); ok && staticCalleeName(c) == "builtin.append" {
-							records = append(records, wEvent{in, "the request is recorded as unprocessed"})
-						}
-					}
 				case *ssa.Call:
 					if staticCalleeName(x) == "errors.As" {
 						asCalls = append(asCalls, x)
 					}
 				}
 			})
+			for _, rec := range writeRequestRecordings(fn) {
+				records = append(records, wEvent{rec.at, "the request is recorded as unprocessed"})
+			}
 			// the classification may live in a predicate helper (isRetryable(err) bool): its call plays the role of the test
 			var tests []ssa.Value
 			var preds []*ssa.Function
@@ -1110,4 +1103,84 @@ func constBoolOf(v ssa.Value) (bool, bool) {
 		return false, false
 	}
 	return constBool(c)
+}
+
+// writeRequestRecordings: where fn records a request as unprocessed – `m[table] = append(m[table], req)` (the map update
+// is the recording) or `pending = append(pending, req)` with the pending list stored under the table's name later on
+// (the append is the recording, the map update the sink).
+type wrRecording struct {
+	at   ssa.Instruction
+	app  *ssa.Call
+	sink *ssa.MapUpdate
+}
+
+func writeRequestRecordings(fn *ssa.Function) []wrRecording {
+	var out []wrRecording
+	var sinks []*ssa.MapUpdate
+	instrs(fn, func(in ssa.Instruction) {
+		if mu, ok := in.(*ssa.MapUpdate); ok && isWriteRequestMap(mu.Map.Type()) {
+			sinks = append(sinks, mu)
+			if c, ok := mu.Value.(*ssa.Call); ok && staticCalleeName(c) == "builtin.append" {
+				out = append(out, wrRecording{mu, c, mu})
+			}
+		}
+	})
+	direct := map[*ssa.Call]bool{}
+	for _, r := range out {
+		direct[r.app] = true
+	}
+	instrs(fn, func(in ssa.Instruction) {
+		c, ok := in.(*ssa.Call)
+		if !ok || staticCalleeName(c) != "builtin.append" || direct[c] {
+			return
+		}
+		sl, ok := c.Type().Underlying().(*types.Slice)
+		if !ok || !strings.Contains(typeName(sl.Elem()), "WriteRequest") {
+			return
+		}
+		// does the grown list reach the value of a sink (through the loop's phis, further appends, re-slicing)?
+		seen := map[ssa.Value]bool{}
+		var reach func(v ssa.Value) *ssa.MapUpdate
+		reach = func(v ssa.Value) *ssa.MapUpdate {
+			if seen[v] {
+				return nil
+			}
+			seen[v] = true
+			refs := v.Referrers()
+			if refs == nil {
+				return nil
+			}
+			for _, r := range *refs {
+				switch x := r.(type) {
+				case *ssa.MapUpdate:
+					if x.Value == v {
+						for _, sk := range sinks {
+							if sk == x {
+								return x
+							}
+						}
+					}
+				case *ssa.Phi:
+					if m := reach(x); m != nil {
+						return m
+					}
+				case *ssa.Slice:
+					if m := reach(x); m != nil {
+						return m
+					}
+				case *ssa.Call:
+					if staticCalleeName(x) == "builtin.append" && x.Call.Args[0] == v {
+						if m := reach(x); m != nil {
+							return m
+						}
+					}
+				}
+			}
+			return nil
+		}
+		if sk := reach(c); sk != nil {
+			out = append(out, wrRecording{c, c, sk})
+		}
+	})
+	return out
 }
